@@ -850,4 +850,39 @@ example : ∃ m, RM.MReach m ∧ (m 1).pc 0 = .l0 ∧ (m 0).pc 0 = .idle :=
   ⟨_, .step (s' := { RM.init .getResource with pc := upd (RM.init .getResource).pc 0 .l0, key := upd (RM.init .getResource).key 0 2 })
         1 0 2 (.init fun _ => .getResource) (by simp [RM.step, RM.init, Cfg.getResource]), by simp [upd], by simp [upd, RM.init]⟩
 
+
+/-! ### Round 5: `cacheNode.doTake`'s closure decisions (`RM.doTakeClosure`, tied to the translated source by
+`tie_doTake_decisions`) are the branching of rows g3 and g5 — for every cache-read / query outcome. -/
+
+/-- row g3: the closure goes on to the query iff `doTakeClosure` says it queries; otherwise it ends at once with the
+found instance (a row, or the placeholder) or with the error outcome `0` (a failed lookup). -/
+theorem rm_closure_row_g3 (s : RM.St) (t : Tid) (c : RM.CacheRead) (q : RM.QueryRes)
+    (hpc : s.pc t = .g3) (hl : s.cfg.lerr = true) (hf : s.found t = c.found) :
+    (RM.step s t c.g3Input).map (fun s' => (s'.pc t, s'.tmp t)) =
+      some (if (RM.doTakeClosure c q).queried then (.g4, s.tmp t)
+            else (.m2, if (RM.doTakeClosure c q).out = .error then 0 else s.loc t)) := by
+  unfold RM.step; rw [hpc]
+  cases c <;> cases q <;> simp [RM.CacheRead.found] at hf <;>
+    simp [hf, hl, RM.doTakeClosure, RM.CacheRead.g3Input, upd]
+
+/-- row g5: after the query the closure stores (the row, or the not-found placeholder — an instance) iff
+`doTakeClosure` says so; a failed query ends with the error outcome, nothing stored. -/
+theorem rm_closure_row_g5 (s : RM.St) (t : Tid) (q : RM.QueryRes) (v : Val) (hv : v ≠ 0) (hpc : s.pc t = .g5) :
+    (RM.step s t (q.g5Input v)).map (fun s' => s'.pc t) =
+      some (if (RM.doTakeClosure .empty q).stored then .g6 else .m2) := by
+  unfold RM.step; rw [hpc]
+  cases q <;> simp [RM.doTakeClosure, RM.QueryRes.g5Input, upd, hv]
+
+/-- a failed lookup (`doGetCache` returned a redis / context error) never runs the loader and never counts as a load:
+the flight ends with the error outcome for the leader and every joiner. -/
+theorem rm_lookup_error_no_load (s s' : RM.St) (t : Tid) (x : Nat) (hpc : s.pc t = .g3) (hf : s.found t = false)
+    (hx : x ≠ 0) (hl : s.cfg.lerr = true) (hs : RM.step s t x = some s') :
+    s'.pc t = .m2 ∧ s'.tmp t = 0 ∧ s'.ncreate = s.ncreate ∧ s'.res = s.res := by
+  unfold RM.step at hs; rw [hpc] at hs
+  simp [hf, hx, hl] at hs
+  subst hs; simp [upd]
+
+example : ((RM.run (RM.init .doTake) ([(0,2)] ++ List.replicate 9 (0,0))).bind fun s => RM.step s 0 1).map
+    (fun s => (s.pc 0, s.tmp 0, s.ncreate 2)) = some (.m2, 0, 0) := by decide
+
 end GoZero.C07
